@@ -239,6 +239,7 @@ func (e *Enc) callStatic(fr *Frame, fn *ssa.Function, args []Val, bind []Val, gu
 // rolled back (declarations are kept, assertions and obligations dropped) and false is returned.
 func (e *Enc) tryInline(fr *Frame, fn *ssa.Function, args []Val, guard T, st *State, depth int, path string) (res []Val, ok bool) {
 	saveOut, saveObls, saveApprox := len(e.out), len(e.obls), len(e.approx)
+	saveCells := len(e.privateCells)
 	saveSt := st.clone()
 	saveStack := len(e.inlineStack)
 	saveSeen := map[string]int{}
@@ -259,12 +260,15 @@ func (e *Enc) tryInline(fr *Frame, fn *ssa.Function, args []Val, guard T, st *St
 			e.out = kept
 			e.obls = e.obls[:saveObls]
 			e.approx = e.approx[:saveApprox]
+			e.privateCells = e.privateCells[:saveCells]
 			e.inlineStack = e.inlineStack[:saveStack]
 			e.oblSeen = saveSeen
 			*st = *saveSt
 			res, ok = nil, false
 		}
 	}()
+	e.autoDepth++
+	defer func() { e.autoDepth-- }()
 	res, _ = e.inline(fr, fn, args, nil, guard, st, depth, path)
 	return res, true
 }
